@@ -127,7 +127,12 @@ func (c *Controller) untaintNewestN(nodes []*v1.Node, nodeGroup *NodeGroupState,
 	}
 	sort.Sort(sorted)
 
-	untaintedIndices := make([]int, 0, n)
+	// n comes from the scale up delta, which is unbounded; no more than len(nodes) can be untainted
+	capacity := len(nodes)
+	if n < capacity {
+		capacity = n
+	}
+	untaintedIndices := make([]int, 0, capacity)
 	for _, bundle := range sorted {
 		// stop at N (or when array is fully iterated)
 		if len(untaintedIndices) >= n {
